@@ -18,7 +18,7 @@ RULE = ('(a) Hypothesis documents (profile "full" without blank lines) in which 
         'swap / replace a character) whose validity the harness does not know: for those only isolation, single '
         'reporting and "no character silently lost" are required; one cell in ten of a multi-column row is emptied '
         'completely (limit case of truncation: import clauses only, the export shows a placeholder).  Oracle: differential against the import of '
-        'the undamaged document: loads does not raise; exactly one ErrorToken per damaged **kern/**root cell with its '
+        'the undamaged document (LF or CRLF line ends, string or file import, dumps and dump-to-file): loads does not raise; exactly one ErrorToken per damaged **kern/**root cell with its '
         'text and 1-based line, none for other spines; every undamaged token has the same class, category, encoding and '
         'export; dumps shows every damaged cell verbatim in place.  (b) a Hypothesis RuleBasedStateMachine that keeps '
         'one spine importer per spine type alive and feeds it up to 30 valid and malformed tokens in any order: every '
@@ -61,7 +61,8 @@ def cases(draw):
             # the limit case of a truncated token: nothing at all between two tabs (import clauses only, see check)
             m = {'t': '', 'kind': 'empty', 'strict': True}
         dmg.append({'row': i, 'col': k, **m})
-    case = {'doc': doc, 'damage': dmg, 'file': draw(st.booleans())}  # imported from a file in half of the cases
+    case = {'doc': doc, 'damage': dmg, 'file': draw(st.booleans()),  # imported from a file in half of the cases
+            'crlf': draw(st.integers(0, 3)) == 0}  # Windows line ends in a quarter
     if draw(st.integers(0, 3)) == 0:
         # blank lines (kernpy skips them): error line numbers must still be the physical ones
         case['blanks'] = sorted(set(draw(st.lists(st.integers(0, len(doc['rows']) - 1), min_size=1, max_size=3))))
@@ -92,7 +93,8 @@ def check(case):
             out_lines.append('')
         out_lines.append(ln)
         phys[i] = len(out_lines)  # 1-based physical line of abstract row i
-    text2 = '\n'.join(out_lines) + '\n'
+    nl = '\r\n' if case.get('crlf') else '\n'
+    text2 = nl.join(out_lines) + nl
     try:
         if case.get('file'):
             import os
@@ -146,6 +148,8 @@ def check(case):
     # export: damaged cells verbatim in place.  What each damaged cell was actually imported as is read from the tree,
     # so that a (known) silent truncation to a null token does not also count as a grid difference.
     out = K.dumps(kd2)
+    if case.get('file') and K.via_dump_file(kd2, expect=out) != out:
+        problems.append(Problem('dump-file', 'kernpy.dump of the damaged document writes a different text than dumps returns', {}))
     got = K.grid(out)
     doc3 = copy.deepcopy(doc2)
     actual = {}
